@@ -31,8 +31,8 @@ m = {
     "version": 1,
     "setup_cmd": "./check.sh setup",
     "hooks": {
-        "guard": "verif",
-        "enable": "go build -overlay /verif/.work/overlay.json (instrumentation is injected by overlay; no guarded source lines exist in /repo)",
+        "guard": "verif_instr",
+        "enable": "./check.sh C06|C19 ... runs cmd/vinstr and then `go build -tags verif_instr -overlay /verif/.work/bin-<Cxx>/overlay.json` (statement points, the vpoint package, VerifGlobals accessors and the CLI server are injected by overlay at build time; /repo contains no hook lines, guarded or not, so source_commits is empty and the suite with the guard off is simply the repository's suite)",
         "baseline_off_cmd": "cd /repo && GOFLAGS=-mod=mod go test -vet=off -count=1 ./...",
         "source_commits": [],
         "add_only": True,
